@@ -1348,8 +1348,10 @@ func (p *scionPacketProcessor) validateTransitUnderlaySrc() disposition {
 	ingressLink := p.d.interfaces[pktIngressID] // Our own link to *that* sibling router
 
 	// Is that the link that the packet came through (e.g. not the internal link)? The
-	// comparison should be cheap. Links are implemented by pointers.
-	if ingressLink != p.pkt.Link {
+	// comparison should be cheap. Links are implemented by pointers. The link must be a sibling
+	// link: a hop field whose ingress interface is 0 (the first hop field of a segment) maps to
+	// the internal link itself and must not let traffic from local end hosts pass as transit.
+	if ingressLink != p.pkt.Link || ingressLink.Scope() != Sibling {
 		// Drop
 		return errorDiscard("error", errInvalidSrcAddrForTransit)
 	}
